@@ -76,33 +76,66 @@ func main() {
 	if s, err := strconv.Atoi(os.Getenv("VERIF_SEED")); err == nil {
 		seed = s
 	}
-	p, ok := rules.Registry[*prop]
-	if !ok {
-		fmt.Fprintf(os.Stderr, "unknown property %q\n", *prop)
-		os.Exit(2)
+	var props []*rules.Prop
+	if *prop == "all" {
+		ids := make([]string, 0, len(rules.Registry))
+		for id := range rules.Registry {
+			ids = append(ids, id)
+		}
+		sort.Strings(ids)
+		for _, id := range ids {
+			props = append(props, rules.Registry[id])
+		}
+	} else {
+		p, ok := rules.Registry[*prop]
+		if !ok {
+			fmt.Fprintf(os.Stderr, "unknown property %q\n", *prop)
+			os.Exit(2)
+		}
+		props = []*rules.Prop{p}
 	}
 	start := time.Now()
-	replay := filepath.Join(*evdir, *prop+".replay.txt")
 	os.MkdirAll(*evdir, 0o755)
 
-	fail := func(reason string) {
-		os.WriteFile(replay, []byte("analysis incomplete: "+reason+"\n"), 0o644)
-		writeEvidence(*evdir, *prop, *tier, seed, p, nil, 1, time.Since(start), "analysis incomplete: "+reason)
-		fmt.Printf("VIOLATION property=%s replay=%s\n  analysis incomplete: %s\n", *prop, replay, reason)
+	failAll := func(reason string) {
+		for _, p := range props {
+			replay := filepath.Join(*evdir, p.ID+".replay.txt")
+			os.WriteFile(replay, []byte("analysis incomplete: "+reason+"\n"), 0o644)
+			writeEvidence(*evdir, p.ID, *tier, seed, p, nil, 1, time.Since(start), "analysis incomplete: "+reason)
+			fmt.Printf("VIOLATION property=%s replay=%s\n  analysis incomplete: %s\n", p.ID, replay, reason)
+		}
 		os.Exit(1)
 	}
 
 	prog, err := load.Load(*repo, "")
 	if err != nil {
-		fail(err.Error())
+		failAll(err.Error())
 	}
 	if len(prog.TypeErrors) > 0 {
-		fail("type errors in module packages: " + strings.Join(prog.TypeErrors[:min(3, len(prog.TypeErrors))], "; "))
+		failAll("type errors in module packages: " + strings.Join(prog.TypeErrors[:min(3, len(prog.TypeErrors))], "; "))
 	}
 	if len(prog.Init) < 60 {
-		fail(fmt.Sprintf("only %d module packages loaded (floor 60)", len(prog.Init)))
+		failAll(fmt.Sprintf("only %d module packages loaded (floor 60)", len(prog.Init)))
 	}
-	c := an.NewCtx(prog, *tier)
+	kn, err := readKnown(*knownPath)
+	if err != nil {
+		failAll("cannot read known findings: " + err.Error())
+	}
+	loadTime := time.Since(start)
+	exit := 0
+	for _, p := range props {
+		pstart := time.Now()
+		if runProp(prog, p, *tier, seed, *evdir, kn, *dump, loadTime, pstart) {
+			exit = 1
+		}
+	}
+	os.Exit(exit)
+}
+
+// runProp runs one property's rules on the loaded program; returns true if it found a violation.
+func runProp(prog *load.Program, p *rules.Prop, tier string, seed int, evdir string, kn []known, dump bool, loadTime time.Duration, pstart time.Time) bool {
+	replay := filepath.Join(evdir, p.ID+".replay.txt")
+	c := an.NewCtx(prog, tier)
 	func() {
 		defer func() {
 			if r := recover(); r != nil {
@@ -114,13 +147,9 @@ func main() {
 	}()
 	c.Finish()
 
-	kn, err := readKnown(*knownPath)
-	if err != nil {
-		fail("cannot read known findings: " + err.Error())
-	}
 	knownBy := map[string]known{}
 	for _, k := range kn {
-		if k.prop == *prop {
+		if k.prop == p.ID {
 			knownBy[k.key] = k
 		}
 	}
@@ -136,7 +165,7 @@ func main() {
 			viol = append(viol, o)
 		}
 	}
-	if *dump {
+	if dump {
 		for _, o := range c.Obs {
 			st := "ok  "
 			if !o.OK {
@@ -146,9 +175,10 @@ func main() {
 		}
 	}
 	for _, o := range knownHits {
-		fmt.Printf("KNOWN-FINDING: property=%s %s %s: %s [%s]\n", *prop, o.Rule, o.Pos, o.Msg, o.Key())
+		fmt.Printf("KNOWN-FINDING: property=%s %s %s: %s [%s]\n", p.ID, o.Rule, o.Pos, o.Msg, o.Key())
 	}
-	writeEvidence(*evdir, *prop, *tier, seed, p, c, len(viol), time.Since(start), "")
+	wall := loadTime + time.Since(pstart)
+	writeEvidence(evdir, p.ID, tier, seed, p, c, len(viol), wall, "")
 	disc := 0
 	for _, o := range c.Obs {
 		if o.OK {
@@ -156,20 +186,21 @@ func main() {
 		}
 	}
 	fmt.Printf("%s %s: %d rules, %d obligations, %d discharged, %d known findings, %d violations, %d functions analysed, %.1fs\n",
-		*prop, *tier, len(c.Rules), len(c.Obs), disc, len(knownHits), len(viol), len(c.FuncsAnalysed), time.Since(start).Seconds())
+		p.ID, tier, len(c.Rules), len(c.Obs), disc, len(knownHits), len(viol), len(c.FuncsAnalysed), wall.Seconds())
 	if len(viol) > 0 {
 		var sb strings.Builder
 		for _, o := range viol {
 			fmt.Fprintf(&sb, "%s %s %s\n    %s\n    key=%s\n", o.Rule, o.Pos, o.Construct, o.Msg, o.Key())
 		}
 		os.WriteFile(replay, []byte(sb.String()), 0o644)
-		fmt.Printf("VIOLATION property=%s replay=%s\n", *prop, replay)
+		fmt.Printf("VIOLATION property=%s replay=%s\n", p.ID, replay)
 		for _, o := range viol {
 			fmt.Printf("  %s %s %s: %s\n", o.Rule, o.Pos, o.Construct, o.Msg)
 		}
-		os.Exit(1)
+		return true
 	}
 	os.Remove(replay)
+	return false
 }
 
 func writeEvidence(dir, prop, tier string, seed int, p *rules.Prop, c *an.Ctx, viol int, wall time.Duration, note string) {
